@@ -1,15 +1,18 @@
 #!/bin/bash
-# tools/mutcheck.sh <patch> <prop> [-R]   apply a patch to /repo, run the quick check, undo.
+# tools/mutcheck.sh <patch> <prop> [-R]
+# Apply a patch to a scratch worktree of /repo (never to /repo itself), run the quick
+# check of <prop> against it (VP_REPO), remove the worktree. ONLY=<substr> limits jobs.
 set -u
 P=$(readlink -f "$1"); PROP=$2; REV=${3:-}
-cd /repo || exit 3
-if ! git diff --quiet; then echo "repo dirty"; exit 3; fi
-git apply $REV "$P" || { echo "patch does not apply"; exit 3; }
+W=/tmp/mut/$(basename "$(dirname "$P")")-$(basename "$P" .diff)-$PROP-$$
+mkdir -p /tmp/mut
+git -C /repo worktree add -q --detach "$W" HEAD || exit 3
+( cd "$W" && git apply $REV "$P" ) || { echo "patch does not apply"; git -C /repo worktree remove --force "$W"; exit 3; }
 cd /verif
-./check $PROP --tier quick ${ONLY:+--only $ONLY} > /tmp/mutcheck.$$.log 2>&1
+VP_REPO="$W" ./check $PROP --tier ${TIER:-quick} ${ONLY:+--only $ONLY} > "$W.log" 2>&1
 rc=$?
-git -C /repo checkout -- .
-grep -E "VIOLATION|UNCONFIRMED|INCONCLUSIVE|HELD|assertion=" /tmp/mutcheck.$$.log | head -8
-rm -f /tmp/mutcheck.$$.log
-echo "rc=$rc"
+git -C /repo worktree remove --force "$W"
+grep -E "VIOLATION|UNCONFIRMED|INCONCLUSIVE|HELD|assertion=|note:" "$W.log" | cut -c1-220 | head -${LINES_MAX:-8}
+rm -f "$W.log"
+echo "rc=$rc  ($P on $PROP)"
 exit $rc
